@@ -20,6 +20,29 @@ for _pid, _title in [("C05","PrefixFS confinement"),("C14","PrefixFS re-rooting"
         "Trusted: Coq kernel, extraction (ExtrOcamlBasic), OCaml driver, Go harness with recording stub FS, python orchestrator; path/filepath modelled and validated exhaustively to a length bound. Lexical layer: symlinks in the underlying tree are outside this model (see DESIGN.md).",
         "DESIGN.md section 4 (%s)" % _pid)
 
+_BFS = {
+ "C01": "Rollback restores the base exactly",
+ "C02": "originals recoverable at every primitive-call boundary (crash points)",
+ "C03": "BackupFS transparent w.r.t. the base (twin runs)",
+ "C04": "backup location sealed off in the documented layerings",
+ "C07": "clean slate after Rollback",
+ "C08": "failed backup never lets the modification through (fault enumeration)",
+ "C09": "Rollback never reports success unless it restored (fault enumeration)",
+ "C12": "tracked state survives serialisation and restart",
+ "C13": "Rollback stays within the transaction's footprint",
+ "C16": "path resolution exact for every symlink topology",
+ "C17": "ForceBackup re-baselines a path",
+}
+for _pid, _title in _BFS.items():
+    CLAIMED[_pid] = ("Coq model of BackupFS over a POSIX filesystem model (theorems in Props/%s.v) + differential correspondence on real trees in a chroot (results, trees, primitive-call traces) + implementation oracle" % _pid,
+        "Theorems in Coq about the executable Gallina model of BackupFS and its layers over a modelled Linux filesystem (state+error+halt monad ticking once per primitive call); the model is tied to the Go code on every run by running generated histories (with crash points / injected faults where the property quantifies over them) through the real code in a private chroot and through the extracted model, comparing results, whole-tree dumps, tracked state and (L2) the exact sequence of primitive calls; the property's own oracle is evaluated on the implementation for every case, failing cases are minimised and attributed to recorded findings only by the model's trigger predicates. " + _title + ".",
+        "Trusted: Coq kernel, extraction (ExtrOcamlBasic), OCaml driver, Go harness (chroot world builder, spy/fault/crash wrappers), python orchestrator (generators, oracles, shrinker). Modelled, validated by correspondence only: Linux VFS as root (errno classes, symlink walk, chown clearing setuid/setgid), os.MkdirAll/RemoveAll/Rename, path/filepath, io.Copy chunking. Where the full statement is false of the faithful model the proved theorem is named _partial and the recorded findings (known_findings.json) are its excluded triggers.",
+        "DESIGN.md section 4 (%s)" % _pid)
+CLAIMED["C10"] = ("Coq proof (mutual exclusion => serialisability) + lock table regenerated from the Go AST on every run (kernel re-evaluates lock_discipline) + blocking-spy schedule exploration + race detector",
+    "The serialisability theorem is proved once for every interleaving of any number of threads; that the Go methods follow the lock discipline is re-checked on every run on a table regenerated from the source (go/parser); dynamically, operation A is held at each of its primitive calls while B is issued (B must not progress), results are compared with the model's serial run, and a -race stress searches for data races (partial: a model cannot exhibit the Go memory model).",
+    "Trusted: Coq kernel, srcfacts (AST walker), Go harness, sync.Mutex, the race detector's coverage. The data-race half is labelled partial.",
+    "DESIGN.md section 4 (C10)")
+
 WIP = {}
 
 def main():
